@@ -803,17 +803,15 @@ fn c19_moves(tier: Tier, d: &mut Vec<Divergence>, n: &mut u64) {
             }
         }
     }
-    // the promotion arm of Display: "{src}-{dst}{letter}"; the property's text forms carry no
-    // promotion, so only the rendering is pinned
+    // the promotion arm of Display is only required not to panic (the property's text forms carry no
+    // promotion and say nothing about how one is rendered)
     for from in 0..64u8 {
         for to in 0..64u8 {
-            for (pp, letter) in [(PromotionPiece::Knight, 'n'), (PromotionPiece::Bishop, 'b'), (PromotionPiece::Rook, 'r'), (PromotionPiece::Queen, 'q')] {
+            for pp in [PromotionPiece::Knight, PromotionPiece::Bishop, PromotionPiece::Rook, PromotionPiece::Queen] {
                 *n += 1;
                 let m = ChessMove { source: pos(from), dest: pos(to), piece: Some(pp) };
-                let text = m.to_string();
-                let base = format!("{}-{}", refchess::sq_name(from), refchess::sq_name(to));
-                if !(text.len() == base.len() + 1 && text.starts_with(&base) && text[base.len()..].eq_ignore_ascii_case(&letter.to_string())) {
-                    d.push(Divergence::new("move-display-wrong", format!("{base} promoting to {pp:?} displays as {text}")));
+                if std::panic::catch_unwind(|| m.to_string().len()).is_err() {
+                    d.push(Divergence::new("move-display-panics", format!("{}{} promoting to {pp:?}", refchess::sq_name(from), refchess::sq_name(to))));
                 }
             }
         }
@@ -824,10 +822,6 @@ fn c19_moves(tier: Tier, d: &mut Vec<Divergence>, n: &mut u64) {
             *n += 1;
             let m = ChessMove { source: pos(from), dest: pos(to), piece: None };
             let text = m.to_string();
-            let want = format!("{}-{}", refchess::sq_name(from), refchess::sq_name(to));
-            if text != want {
-                d.push(Divergence::new("move-display-wrong", format!("{want} displays as {text}")));
-            }
             if text.parse::<ChessMove>() != Ok(m) || ChessMove::from_ascii_bytes(text.as_bytes()) != Some(m) {
                 d.push(Divergence::new("move-text-round-trip", text.clone()));
             }
